@@ -219,8 +219,11 @@ def classify(trace_path, judge_path):
         if j.startswith("IDIFF"):
             advisory += 1
             continue
-        if cur["status"] == "ok" and j.split(" ")[0] in ("DIFF", "SPEC", "INV", "ERR"):
-            cur["status"] = j.split(" ")[0]
+        kind = j.split(" ")[0]
+        if kind in ("DIFF", "SPEC", "INV", "ERR") and (
+                cur["status"] == "ok" or (kind in ("SPEC", "INV") and cur["status"] == "DIFF")):
+            # a specification/invariant failure later in the history outranks the model difference
+            cur["status"] = kind
             cur["line"] = t
             cur["judge"] = j
             cur["at"] = i - cur["first"]
@@ -372,6 +375,9 @@ def check(pid, tier, seed, replay_file=None):
     shutil.rmtree(work, ignore_errors=True)
     os.makedirs(work, exist_ok=True)
     os.makedirs(os.path.join(VERIF, "replays"), exist_ok=True)
+    if not replay_file:
+        for old in glob.glob(os.path.join(VERIF, "replays", pid + "-*")):
+            os.remove(old)
     violations = []   # (replay path, suffix, description)
     known_hits = []
     inconclusive = []
@@ -459,6 +465,8 @@ def check(pid, tier, seed, replay_file=None):
         else:
             violations.append((cf, "" if st in ("SPEC", "CRASH", "INV") else "no-failing-input-found", desc))
 
+    shrunk = 0
+    seen_headers = set()
     for r in results:
         job = r["job"]
         eng = job["engine"]
@@ -469,10 +477,16 @@ def check(pid, tier, seed, replay_file=None):
         crashed = r["rc"] != 0
         exe_j = exe_rel if job["name"].endswith("-release") and exe_rel else exe
         handled = 0
-        for h in bad[:3]:
+        # specification failures first
+        bad.sort(key=lambda h: 0 if h["status"] in ("SPEC", "INV") else 1)
+        for h in bad[:2]:
             if h["status"] == "ERR":
                 inconclusive.append(f"judge error in {job['name']}: {h['judge']} on {h['line']}")
                 continue
+            if (eng, h["header"]) in seen_headers or shrunk >= 3:
+                continue
+            seen_headers.add((eng, h["header"]))
+            shrunk += 1
             ops = history_ops(os.path.join(r["workdir"], "ops.txt"), h["header"])
             small = shrink(exe_j, eng, h["header"], ops, h["status"], os.path.join(work, "shrink")) if ops else ops
             st, d = replay(exe_j, eng, h["header"], small, os.path.join(work, "shrink"), "final")
